@@ -197,3 +197,34 @@ theorem C09_replace (pl : PL) (p : Nat) (s : Slurry) :
 /-! Non-vacuity: a concrete pipeline (zero-length entrance, pump, two diameters) -/
 example : (updateSlurries { secs := [.pipe 5, .pump ⟨0, 0⟩, .pipe 7, .pipe 5], main := ⟨3, 9⟩, slurries := [] }) =
     { secs := [.pipe 5, .pump ⟨3, 5⟩, .pipe 7, .pipe 5], main := ⟨3, 5⟩, slurries := [(5, ⟨3, 5⟩), (7, ⟨3, 7⟩)] } := by decide
+
+/-- the pump heads that enter the sum are those of pumps working on THIS pipeline's slurry: after the binding step of `calc_system_head` every pump
+in the line holds the pipeline slurry — whatever slurry it held before (it may be part of a second pipeline) —, the pipes, the pipeline slurry and
+the per-diameter copies are untouched, and the step is idempotent -/
+theorem C09_calc_binds_pumps (pl : Spec.Pipe.PL) :
+    (∀ s, Spec.Pipe.PSec.pump s ∈ (Spec.Pipe.bindPumps pl).secs → s = pl.main) ∧
+    (∀ d, Spec.Pipe.PSec.pipe d ∈ (Spec.Pipe.bindPumps pl).secs ↔ Spec.Pipe.PSec.pipe d ∈ pl.secs) ∧
+    (Spec.Pipe.bindPumps pl).main = pl.main ∧ (Spec.Pipe.bindPumps pl).slurries = pl.slurries ∧
+    (Spec.Pipe.bindPumps pl).secs.length = pl.secs.length ∧
+    Spec.Pipe.bindPumps (Spec.Pipe.bindPumps pl) = Spec.Pipe.bindPumps pl := by
+  refine ⟨?_, ?_, rfl, rfl, by simp [Spec.Pipe.bindPumps], ?_⟩
+  · intro s hs
+    simp only [Spec.Pipe.bindPumps, List.mem_map] at hs
+    obtain ⟨x, _, hx⟩ := hs
+    cases x with
+    | pipe d => simp at hx
+    | pump sl => simp at hx; exact hx.symm
+  · intro d
+    simp only [Spec.Pipe.bindPumps, List.mem_map]
+    constructor
+    · rintro ⟨x, hx, h⟩
+      cases x with
+      | pipe d' => simp at h; subst h; exact hx
+      | pump sl => simp at h
+    · intro h
+      exact ⟨_, h, rfl⟩
+  · simp only [Spec.Pipe.bindPumps, List.map_map]
+    congr 1
+    apply List.map_congr_left
+    intro x _
+    cases x <;> rfl
